@@ -129,6 +129,14 @@ def search_root_deriv(x0, nm, Q, P, dx, dt, N):
             raise FinError("Function derivative is zero.")
 
         step = fval/fderiv
+
+        # f is close to exponential in x0: a full Newton step taken from below
+        # the root overshoots to where exp(-exp(x)*dt) underflows and the
+        # derivative vanishes, so x0 may rise by at most one per iteration
+        # (from above the root Newton already descends by about one)
+        if step < -1.0:
+            step = -1.0
+
         x0 = x0 - step
 
     raise FinError("Search root deriv FAILED to find alpha.")
